@@ -243,6 +243,28 @@ def rule_S2(ctx):
                     en = kw.get("end", pos[1] if len(pos) > 1 else None)
                     tgt = [t for t in s_.ast.targets if isinstance(t, ast.Subscript)][0]
                     kinds.add((nx, en, ev_.ev(tgt.slice).key()))
+    # every link of the walk is installed: the loop over the links has no way out but the end of the list (an index outside the
+    # table leaves through the exception), and each turn stores one interior entry and moves on to the successor
+    cfg2 = ctx.cfg(fn, "S2")
+    floops = [l_ for l_ in own_nodes(fn) if isinstance(l_, (ast.For, ast.While)) and any(st_ in stores for st_ in ast.walk(l_))]
+    okw, detw = len(floops) == 1, "link loop not found"
+    if okw:
+        lp2 = cfg2.loop_of(floops[0])
+        nb = 0
+        for kind, path, edge in cfg2.iteration_paths(lp2):
+            if kind == "exit" and len(path) == 1:
+                continue
+            if kind != "back":
+                lines_ = sorted({getattr(cfg2.nodes[n_].ast, "lineno", 0) for n_, _l in path if cfg2.nodes[n_].ast is not None})
+                okw, detw = False, f"the walk can leave the loop before the last link (path through lines {lines_}): the rest of the chain is never installed"
+                continue
+            nb += 1
+            pr = _walk(ctx, fn, cfg2, path)
+            n_st = sum(1 for s_ in pr.steps if s_.kind == "stmt" and s_.ast in stores)
+            if n_st != 1:
+                okw, detw = False, f"a turn of the link loop stores {n_st} entries"
+        okw = okw and nb >= 1
+    ctx.ob("S2", floops[0] if floops else fn, "every link handed to add_to_sector_links is installed (no early way out of the walk)", okw, "" if okw else detw, inst="all-links")
     has_link = any(e == "0" and nx not in ("0", None) and nx != idx for nx, e, idx in kinds)
     has_end = any(e == "1" for nx, e, idx in kinds)
     ctx.ob("S2", fn, "interior sectors are stored as (next=successor, end=False) and the last one as end=True", has_link and has_end,
